@@ -307,9 +307,14 @@ class Parameter(Term):
 
     def get_sql(self, ctx: SqlContext) -> str:
         if self._placeholder:
-            return self._placeholder
-
-        return self.IDX_PLACEHOLDERS.get(ctx.dialect, lambda _: self.DEFAULT_PLACEHOLDER)(self._idx)
+            sql = self._placeholder
+        else:
+            sql = self.IDX_PLACEHOLDERS.get(ctx.dialect, lambda _: self.DEFAULT_PLACEHOLDER)(
+                self._idx
+            )
+        if ctx.with_alias:
+            return format_alias_sql(sql, getattr(self, "alias", None), ctx)
+        return sql
 
 
 class Parameterizer:
@@ -359,11 +364,14 @@ class Negative(Term):
         return self.term.is_aggregate
 
     def get_sql(self, ctx: SqlContext) -> str:
-        term_sql = self.term.get_sql(ctx)
+        term_sql = self.term.get_sql(ctx.copy(with_alias=False))
         # -(a+1) must not become -a+1, and a second minus must not form the "--" comment opener
         if isinstance(self.term, ArithmeticExpression) or term_sql.startswith("-"):
             term_sql = "({})".format(term_sql)
-        return "-{term}".format(term=term_sql)
+        sql = "-{term}".format(term=term_sql)
+        if ctx.with_alias:
+            return format_alias_sql(sql, self.alias, ctx)
+        return sql
 
 
 class ValueWrapper(Term):
@@ -543,7 +551,10 @@ class Values(Term):
         self.field = Field(field) if not isinstance(field, Field) else field
 
     def get_sql(self, ctx: SqlContext) -> str:
-        return "VALUES({value})".format(value=self.field.get_sql(ctx))
+        sql = "VALUES({value})".format(value=self.field.get_sql(ctx.copy(with_alias=False)))
+        if ctx.with_alias:
+            return format_alias_sql(sql, self.alias, ctx)
+        return sql
 
 
 class LiteralValue(Term):
@@ -670,7 +681,10 @@ class Index(Term):
         self.name = name
 
     def get_sql(self, ctx: SqlContext) -> str:
-        return format_quotes(self.name, ctx.quote_char)
+        sql = format_quotes(self.name, ctx.quote_char)
+        if ctx.with_alias:
+            return format_alias_sql(sql, self.alias, ctx)
+        return sql
 
 
 class Star(Field):
@@ -701,7 +715,8 @@ class Tuple(Criterion):
             yield from value.nodes_()
 
     def get_sql(self, ctx: SqlContext) -> str:
-        sql = "({})".format(",".join(term.get_sql(ctx) for term in self.values))
+        operand_ctx = ctx.copy(with_alias=False)
+        sql = "({})".format(",".join(term.get_sql(operand_ctx) for term in self.values))
         return format_alias_sql(sql, self.alias, ctx)
 
     @property
@@ -737,7 +752,8 @@ class Array(Tuple):
             # an array holding terms cannot be one parameter: its elements are rendered (and parameterised) one by one
             or any(isinstance(value, Term) for value in self.original_value)
         ):
-            values = ",".join(term.get_sql(ctx) for term in self.values)
+            operand_ctx = ctx.copy(with_alias=False)
+            values = ",".join(term.get_sql(operand_ctx) for term in self.values)
 
             sql = "[{}]".format(values)
             if ctx.dialect in (Dialects.POSTGRESQL, Dialects.REDSHIFT):
@@ -802,12 +818,13 @@ class NestedCriterion(Criterion):
         self.nested = self.right.replace_table(current_table, new_table)
 
     def get_sql(self, ctx: SqlContext) -> str:
+        operand_ctx = ctx.copy(with_alias=False)
         sql = "{left}{comparator}{right}{nested_comparator}{nested}".format(
-            left=self.left.get_sql(ctx),
+            left=self.left.get_sql(operand_ctx),
             comparator=self.comparator.value,
-            right=self.right.get_sql(ctx),
+            right=self.right.get_sql(operand_ctx),
             nested_comparator=self.nested_comparator.value,  # type:ignore[attr-defined]
-            nested=self.nested.get_sql(ctx),
+            nested=self.nested.get_sql(operand_ctx),
         )
 
         if ctx.with_alias:
@@ -870,10 +887,11 @@ class BasicCriterion(Criterion):
         self.right = self.right.replace_table(current_table, new_table)
 
     def get_sql(self, ctx: SqlContext) -> str:
+        operand_ctx = ctx.copy(with_alias=False)
         sql = "{left}{comparator}{right}".format(
             comparator=self.comparator.value,
-            left=self.left.get_sql(ctx),
-            right=self.right.get_sql(ctx),
+            left=self.left.get_sql(operand_ctx),
+            right=self.right.get_sql(operand_ctx),
         )
         if ctx.with_alias:
             return format_alias_sql(sql, self.alias, ctx)
@@ -923,9 +941,9 @@ class ContainsCriterion(Criterion):
         self.term = self.term.replace_table(current_table, new_table)
 
     def get_sql(self, ctx: SqlContext) -> str:
-        container_ctx = ctx.copy(subquery=True)
+        container_ctx = ctx.copy(subquery=True, with_alias=False)
         sql = "{term} {not_}IN {container}".format(
-            term=self.term.get_sql(ctx),
+            term=self.term.get_sql(ctx.copy(with_alias=False)),
             container=self.container.get_sql(container_ctx),
             not_="NOT " if self._is_negated else "",
         )
@@ -973,20 +991,22 @@ class BetweenCriterion(RangeCriterion):
 
     def get_sql(self, ctx: SqlContext) -> str:
         # FIXME escape
+        operand_ctx = ctx.copy(with_alias=False)
         sql = "{term} BETWEEN {start} AND {end}".format(
-            term=self.term.get_sql(ctx),
-            start=self.start.get_sql(ctx),
-            end=self.end.get_sql(ctx),
+            term=self.term.get_sql(operand_ctx),
+            start=self.start.get_sql(operand_ctx),
+            end=self.end.get_sql(operand_ctx),
         )
         return format_alias_sql(sql, self.alias, ctx)
 
 
 class PeriodCriterion(RangeCriterion):
     def get_sql(self, ctx: SqlContext) -> str:
+        operand_ctx = ctx.copy(with_alias=False)
         sql = "{term} FROM {start} TO {end}".format(
-            term=self.term.get_sql(ctx),
-            start=self.start.get_sql(ctx),
-            end=self.end.get_sql(ctx),
+            term=self.term.get_sql(operand_ctx),
+            start=self.start.get_sql(operand_ctx),
+            end=self.end.get_sql(operand_ctx),
         )
         return format_alias_sql(sql, self.alias, ctx)
 
@@ -1020,7 +1040,7 @@ class BitwiseAndCriterion(Criterion):
 
     def get_sql(self, ctx: SqlContext) -> str:
         sql = "({term} & {value})".format(
-            term=self.term.get_sql(ctx),
+            term=self.term.get_sql(ctx.copy(with_alias=False)),
             value=self.value,
         )
         return format_alias_sql(sql, self.alias, ctx)
@@ -1053,15 +1073,15 @@ class NullCriterion(Criterion):
 
     def get_sql(self, ctx: SqlContext) -> str:
         sql = "{term} IS NULL".format(
-            term=self.term.get_sql(ctx),
+            term=self.term.get_sql(ctx.copy(with_alias=False)),
         )
         return format_alias_sql(sql, self.alias, ctx)
 
 
 class ComplexCriterion(BasicCriterion):
     def get_sql(self, ctx: SqlContext) -> str:
-        left_ctx = ctx.copy(subcriterion=self.needs_brackets(self.left))
-        right_ctx = ctx.copy(subcriterion=self.needs_brackets(self.right))
+        left_ctx = ctx.copy(subcriterion=self.needs_brackets(self.left), with_alias=False)
+        right_ctx = ctx.copy(subcriterion=self.needs_brackets(self.right), with_alias=False)
         sql = "{left} {comparator} {right}".format(
             comparator=self.comparator.value,
             left=self.left.get_sql(left_ctx),
@@ -1069,8 +1089,10 @@ class ComplexCriterion(BasicCriterion):
         )
 
         if ctx.subcriterion:
-            return "({criterion})".format(criterion=sql)
+            sql = "({criterion})".format(criterion=sql)
 
+        if ctx.with_alias:
+            return format_alias_sql(sql, self.alias, ctx)
         return sql
 
     def needs_brackets(self, term: Term) -> bool:
@@ -1181,8 +1203,9 @@ class ArithmeticExpression(Term):
     def get_sql(self, ctx: SqlContext) -> str:
         left_op, right_op = [getattr(side, "operator", None) for side in [self.left, self.right]]
 
-        left_sql = self.left.get_sql(ctx)
-        right_sql = self.right.get_sql(ctx)
+        operand_ctx = ctx.copy(with_alias=False)
+        left_sql = self.left.get_sql(operand_ctx)
+        right_sql = self.right.get_sql(operand_ctx)
         right_parens = self.right_needs_parens(self.operator, right_op)
         if self.operator == Arithmetic.sub and right_sql.startswith("-"):
             # a - -1 would otherwise be written a--1, which opens a comment
@@ -1286,7 +1309,7 @@ class Not(Criterion):
         yield from self.term.nodes_()
 
     def get_sql(self, ctx: SqlContext) -> str:
-        not_ctx = ctx.copy(subcriterion=True)
+        not_ctx = ctx.copy(subcriterion=True, with_alias=False)
         sql = "NOT {term}".format(term=self.term.get_sql(not_ctx))
         return format_alias_sql(sql, self.alias, ctx)
 
@@ -1336,7 +1359,7 @@ class All(Criterion):
         yield from self.term.nodes_()
 
     def get_sql(self, ctx: SqlContext) -> str:
-        sql = "{term} ALL".format(term=self.term.get_sql(ctx))
+        sql = "{term} ALL".format(term=self.term.get_sql(ctx.copy(with_alias=False)))
         return format_alias_sql(sql, self.alias, ctx)
 
 
@@ -1463,7 +1486,7 @@ class AggregateFunction(Function):
 
     def get_function_sql(self, ctx: SqlContext) -> str:
         sql = super().get_function_sql(ctx)
-        filter_sql = self.get_filter_sql(ctx)
+        filter_sql = self.get_filter_sql(ctx.copy(with_alias=False))
 
         if self._include_filter:
             sql += " FILTER({filter_sql})".format(filter_sql=filter_sql)
@@ -1526,7 +1549,7 @@ class AnalyticFunction(AggregateFunction):
 
     def get_function_sql(self, ctx: SqlContext) -> str:
         function_sql = super().get_function_sql(ctx)
-        partition_sql = self.get_partition_sql(ctx)
+        partition_sql = self.get_partition_sql(ctx.copy(with_alias=False))
 
         sql = function_sql
         if self._include_over:
@@ -1740,6 +1763,8 @@ class PseudoColumn(Term):
         self.name = name
 
     def get_sql(self, ctx: SqlContext) -> str:
+        if ctx.with_alias:
+            return format_alias_sql(self.name, self.alias, ctx)
         return self.name
 
 
@@ -1761,7 +1786,7 @@ class AtTimezone(Term):
 
     def get_sql(self, ctx: SqlContext) -> str:
         sql = "{name} AT TIME ZONE {interval}'{zone}'".format(
-            name=self.field.get_sql(ctx),
+            name=self.field.get_sql(ctx.copy(with_alias=False)),
             interval="INTERVAL " if self.interval else "",
             zone=self.zone,
         )
